@@ -804,7 +804,14 @@ class Report:
         import traceback
 
         tb = traceback.extract_tb(exc.__traceback__)
-        where = "; ".join(f"{os.path.basename(f.filename)}:{f.lineno}:{f.name}" for f in tb[-3:])
+        if isinstance(exc, RecursionError):
+            # the place of the overflow is arbitrary: report the functions that make up the recursion
+            import collections
+
+            common = collections.Counter((os.path.basename(f.filename), f.name) for f in tb).most_common(2)
+            where = "recursion through " + ", ".join(f"{fn}:{name}" for (fn, name), _ in sorted(common))
+        else:
+            where = "; ".join(f"{os.path.basename(f.filename)}:{f.lineno}:{f.name}" for f in tb[-3:])
         self.check(False, name, spec, extra, error=repr(exc)[:300], where=where)
 
     def result(self, tool, bound):
@@ -1182,7 +1189,11 @@ def _c14(tier, seed, ses):
             root = b.root
             nodes = walk(root)
             before = canon([root])
-            ids = [ident(c) for c in nodes]
+            # reference identifiers: those of an equal graph that nobody tries to modify (identifiers of sealed
+            # configurations are cached: comparing before/after on the same objects would not say much)
+            ref = walk(build(spec, ses, True).root)
+            ref_ids = [ident(c) for c in ref]
+            root_id = ident(root)
             rel = [str(c.__xpm__.job.relpath) if hasattr(c.__xpm__.job, "relpath") else None for c in nodes]
             for k, c in enumerate(nodes):
                 info = c.__xpm__
@@ -1215,10 +1226,11 @@ def _c14(tier, seed, ses):
                 rep.check(raised and len(info.pre_tasks) == n0, "C14 add_pretasks on a frozen configuration does not raise", spec, **where)
             d = first_diff(before, canon([root]))
             rep.check(d is None, "C14 the frozen graph changed", spec, diff=d)
-            ids2 = [ident(c) for c in nodes]
+            ids2 = [ident(c) for c in nodes]  # first computation for the inner nodes: uses the current values
             rel2 = [str(c.__xpm__.job.relpath) if hasattr(c.__xpm__.job, "relpath") else None for c in nodes]
-            bad = [k for k in range(len(nodes)) if ids[k] != ids2[k]]
-            rep.check(not bad, "C14 identifier changed after attempts to modify a frozen configuration", spec, nodes=bad[:4])
+            bad = [k for k in range(len(nodes)) if k >= len(ref_ids) or ref_ids[k] != ids2[k]] + ([0] if ident(root) != root_id else [])
+            rep.check(not bad and len(ref_ids) == len(ids2), "C14 identifier changed after attempts to modify a frozen configuration",
+                      spec, nodes=bad[:4])
             bad = [k for k in range(len(nodes)) if rel[k] != rel2[k]]
             rep.check(not bad, "C14 job path changed after attempts to modify a frozen configuration", spec, nodes=bad[:4])
         except Exception as e:  # noqa
